@@ -121,8 +121,8 @@ PLAN["C12"] = dict(
     functions=dict(quick=PARSER_C12, thorough=PARSER_C12), sidecars=["contracts.parser_contracts"],
     assumptions=ENV_ASSUMPTIONS[:1] + [
         "Parser.check_name (regex) and trim_root / pathlib are external; ruamel.yaml rejects duplicate keys inside one file",
-        "NOT under contract: handle_reserve's range parsing (regex), check_duplicate_name across the five shared namespaces for "
-        "constants/aliases/structs/messages (same loop shape as the id handlers, inlined at their call sites only for host/module ids here)",
+        "handle_reserve (integer entries as they are, spans with both ends, every reserved id registered through handle_signal) is a dataflow contract decided syntactically "
+        "(pyvc/importcheck.py), the regex is not modelled; the call sites of check_duplicate_name in the five section handlers are not under contract (the function itself is, for the five-namespace tuple)",
         "parse_file's import de-duplication ('every file is read once however it is reached') is decided by a syntactic dataflow contract on the one function (pyvc/importcheck.py: canonical key, "
         "skip test on that key, append before read), not by SMT; pathlib.resolve() is assumed canonical"],
     explanation="registry invariant (every entry stored under its own name, ids injective) preserved by handle_host_id / handle_module_id; acceptance implies no id or name clash with any registered "
@@ -130,7 +130,7 @@ PLAN["C12"] = dict(
                 "import_coredefs exemptions); validate_msg_id likewise for messages, signals and reserved ids")
 from pyvc import tables as _tables, detcheck as _detcheck, hashcheck as _hashcheck, importcheck as _importcheck, rgcheck as _rgcheck
 from .logger_contracts import LOGGER_C17, LOGGER_SIDECARS
-PLAN["C12"]["extra"] = [_importcheck.check]
+PLAN["C12"]["extra"] = [_importcheck.check, _importcheck.check_reserve]
 PLAN["C04"] = dict(
     functions=[], extra=[_tables.check], level="other",
     level_text="PARTIAL. Only clause T1 of the design is decided: the six hand-written native type tables (parser supported_types, Parser.get_ctype_cls, python type_map and "
